@@ -507,12 +507,21 @@ class Interp:
                 acc = self.and_(acc, self.contains(b, x))
             return acc
         if isinstance(a, SymRef) or isinstance(b, SymRef):
-            # user-defined __eq__ on candidates is not supported in the prototype
+            # candidates with a user-defined __eq__: concretise (forks) and call it
+            def has_eq(v):
+                cs = v.cands if isinstance(v, SymRef) else (v,)
+                return any(isinstance(c, Obj) and isinstance(self.class_lookup(c.cls, "__eq__"), FuncObj) for c in cs)
+            if has_eq(a) or has_eq(b):
+                return self.equal(self.resolve(a), self.resolve(b))
             return self.identical(a, b)
         if isinstance(a, Obj):
             eq = self.class_lookup(a.cls, "__eq__")
             if isinstance(eq, FuncObj):
                 return self.call(eq, [a, b], {})
+            if isinstance(b, Obj):
+                eq = self.class_lookup(b.cls, "__eq__")
+                if isinstance(eq, FuncObj):
+                    return self.call(eq, [b, a], {})      # reflected comparison
             return a is b
         if isinstance(a, HeapVal) or isinstance(b, HeapVal):
             return a is b
